@@ -273,15 +273,18 @@ pub(crate) fn stub_new(key: &[u8]) -> Rc4 {
 
 pub(crate) fn stub_apply(r: &mut Rc4, stream: &mut [u8]) {
     verif_oracle::bump(1);
-    let len = (stream.len() as u32).to_le_bytes();
-    verif_oracle::ghost_store(1, &len);
-    // only a keyed cipher may be advanced; remember how far
+    // accumulate the number of keystream bytes consumed so far (however many calls are used)
+    let (prev, plen) = verif_oracle::ghost_load(1);
+    let before = if plen == 4 { u32::from_le_bytes([prev[0], prev[1], prev[2], prev[3]]) } else { 0 };
+    let total = before.wrapping_add(stream.len() as u32).to_le_bytes();
+    verif_oracle::ghost_store(1, &total);
+    // only a keyed cipher may be advanced
     assert!(r.state[0] == 0xA5, "C09: keystream applied to a cipher that was not keyed by Rc4::new");
     r.state[1] = r.state[1].wrapping_add(1);
 }
 
 pub(crate) fn is_stub_after_one_apply(r: &Rc4) -> bool {
-    r.state[0] == 0xA5 && r.state[1] == 1 && r.i == 0 && r.j == 0
+    r.state[0] == 0xA5 && r.state[1] >= 1 && r.i == 0 && r.j == 0
 }
 
 // ---- keystream as an uninterpreted function of the key (matrix card, C18) ----
